@@ -29,7 +29,9 @@ META = dict(
                 'node, lru/timeout/list nodes may each fail - when the allocator model says so, with arbitrary blocks of other tenants, or by an '
                 'injected fault list; the exception paths of basic_map::allocate and mem_cache::store are spelled out): after ANY history the in-use '
                 'pages of the segment are exactly the recorded blocks plus those of the other tenants, each once (no orphan, no dangling record); '
-                'after clear() only the other tenants remain; no temporary of a store is recorded between operations, whatever failed; a cache that has the segment for itself leaves after clear() the page headers and free '
+                'clear() - whether or not one of its two rehash calls throws - leaves nothing recorded but bucket vectors (indexes empty, any limit) and '
+                'goes through as soon as the allocator has a free page for a bucket vector (the cache stays usable: no wedge); fetch (one splice) never '
+                'changes the block set; no temporary of a store is recorded between operations, whatever failed; with limit 0 a cache that has the segment for itself leaves after clear() the page headers and free '
                 'lists of the freshly constructed allocator; without the catch block of basic_map::allocate a concrete history orphans the node. '
                 'Tie: extracted models vs the real code on the same cases (cache sequences; allocator sequences with offsets, free lists, headers; '
                 'budget sweeps and failure injection: stats after the store and the exact page structure of the real segment); the statement shapes '
@@ -42,7 +44,7 @@ META = dict(
                 'as a finite map in the cache model and as tagged blocks in the resource model; std::multimap/list/set semantics; locks not modelled '
                 '(C09); the resource model records the blocks of an entry as a set (the order in which delete_node / nl_clear release several blocks is not '
                 'modelled: exact page-structure correspondence uses limit 0 and states where the set of live blocks determines the page structure; '
-                'limits 1..8 are compared on stats and bytes in in-use pages) and omits fetch (frees one list node, allocates one of the same size); the lexical shape extractor of checks/C08.py (fixed table of statement texts); '
+                'limits 1..8, 16, 64 are compared on stats and bytes in in-use pages) and has fetch as the identity on blocks (one lru.splice since /repo 117bb4c; tied by shape and by F steps in the page-exact correspondence); the lexical shape extractor of checks/C08.py (fixed table of statement texts); '
                 'shmem_allocator mutex and mmap are not modelled.'),
 )
 
@@ -138,14 +140,20 @@ def gen_shape():
     cs = re.sub(r'//[^\n]*', '', cs)
     st = re.sub(r'\s+', '', _body_after(cs, r'virtual\s+void\s+store\s*\(') or '')
     nc = re.sub(r'\s+', '', _body_after(cs, r'void\s+nl_clear\s*\(\s*\)\s*\{') or '')
+    fb = _body_after(cs, r'virtual\s+bool\s+fetch\s*\(') or ''
+    mlu = re.search(r'\{\s*(lock_guard\s+lock\s*\(\s*\*lru_mutex\s*\)\s*;.*?)\}', fb, re.S)
+    lru_upd = re.sub(r'\s+', '', mlu.group(1)) if mlu else ''
     handlers = re.findall(r'catch\(([^)]*)\)\{([^{}]*)\}', st)
     flags = {
         # exactly two handlers in store: the value copy failed -> remove(key); return;   anything else -> nl_clear();
         'g_store_value_copy_handler_removes': len(handlers) == 2 and handlers[0][0].startswith('std::bad_allocconst&') and handlers[0][1] == 'remove(key);return;',
         'g_store_handler_clears': len(handlers) == 2 and handlers[1][0].startswith('std::bad_allocconst&') and handlers[1][1] == 'nl_clear();',
-        # every container is cleared and both counters are reset (the position of the two rehash(limit) calls is left open: see finding 1 in docs/C08.md)
-        'g_nl_clear_clears_every_container': (set(x for x in nc.split(';') if x) - {'primary.rehash(limit)', 'triggers.rehash(limit)'}
-                                              == {'timeout.clear()', 'lru.clear()', 'primary.clear()', 'triggers.clear()', 'size=0', 'triggers_count=0'}),
+        # /repo a6386b3: every container is cleared and both counters are reset BEFORE the two bucket vectors are re-created
+        'g_nl_clear_clears_every_container_then_rehashes': nc == ('timeout.clear();lru.clear();primary.clear();triggers.clear();size=0;triggers_count=0;'
+                                                                   'primary.rehash(limit);triggers.rehash(limit);'),
+        # /repo 117bb4c: the recency update of fetch is ONE splice under lru_mutex - no erase/push_front pair, no allocation, no assignment
+        # to the stored iterator
+        'g_fetch_lru_update_is_one_splice': lru_upd == 'lock_guardlock(*lru_mutex);lru.splice(lru.begin(),lru,p->second.lru);',
     }
     txt = ('(* generated by checks/C08.py (gen_shape) from private/hash_map.h of the tree under test -- do not edit *)\n'
            'From Coq Require Import List.\nImport ListNotations.\nFrom CppcmsV Require Import C08.ResDefs.\n')
@@ -782,9 +790,18 @@ def oracle_exh(case, out):
             hogged = False
         elif st[0] == 'S':
             if a.startswith('s!'):
-                return (('clear-in-handler-throws-limit-ge-16' if limit >= 16 else 'exception-escapes-store'),
-                        'std::bad_alloc came out of store() (thrown by nl_clear() -> primary.rehash(limit) inside the bad_alloc handler, before triggers.clear()): '
-                        'the counters and the trigger index are left pointing at deleted entries (limit %d, %s)' % (limit, where))
+                # since /repo a6386b3 nl_clear() releases every container before it re-creates the bucket vectors: std::bad_alloc can leave
+                # store() only when even the emptied cache can not get a bucket vector (a second tenant holds the segment), and then the
+                # cache is empty and consistent
+                if not hogged:
+                    return ('exception-escapes-store', 'std::bad_alloc came out of store() although the cache has the segment for itself: nl_clear() could '
+                            'not re-create a bucket vector after an exhaustion (regression of /repo a6386b3: the vectors must be re-created after all '
+                            'four containers have given their memory back) - limit %d, %s' % (limit, where))
+                if a != 's!0/0':
+                    return ('stale-indexes-after-failed-clear', 'std::bad_alloc left store() with the counters / indexes not reset (%s): nl_clear() must empty '
+                            'all four containers and zero the counters before it allocates (regression of /repo a6386b3) - %s' % (a, where))
+                cleared = False
+                continue
             try:
                 ks, tr = [int(x) for x in a[1:].split('/')]
             except ValueError:
@@ -807,8 +824,13 @@ def oracle_exh(case, out):
             cleared = False
         elif st == 'C':
             if a.startswith('c!'):
-                return (('clear-in-handler-throws-limit-ge-16' if limit >= 16 else 'exception-escapes-clear'),
-                        'std::bad_alloc came out of clear(): nothing was released (limit %d, %s)' % (limit, where))
+                if not hogged:
+                    return ('exception-escapes-clear', 'std::bad_alloc came out of clear() although the cache has the segment for itself '
+                            '(regression of /repo a6386b3) - limit %d, %s' % (limit, where))
+                if a != 'c!0/0':
+                    return ('stale-indexes-after-failed-clear', 'clear() threw and left the counters / indexes not reset (%s; regression of /repo a6386b3) - %s' % (a, where))
+                cleared = False
+                continue
             if a != 'c0/0':
                 return ('not-empty-after-emptying', 'stats after clear(): ' + where)
             clears = clears + 1 if cleared else 1
@@ -836,18 +858,26 @@ def oracle_inj(case, out):
     indexes stay consistent, the key is not served afterwards, and clear() brings the heap footprint back to that of an empty cache"""
     c = case.split()
     limit, nt, kmax, npre = int(c[1]), int(c[5]), int(c[7]), int(c[8])
+    burst = 2 if c[0] == 'inj2' else 1
     if out.startswith('<') or 'exception' in out or '<crash' in out:
         return ('cache-crash', 'harness/child died or threw: ' + out[:300])
     toks = out.split(' ')
-    if len(toks) != kmax:
+    if len(toks) != kmax and not (toks and toks[-1].split(':')[-1] != 'ok'):
         return ('bad-output', 'answer has %d tokens for kmax=%d: %s' % (len(toks), kmax, out[:200]))
     for k, a in enumerate(toks, 1):
         f = a.split(':')
         try:
-            fired, (ks, tr), fetched, delta, cons = int(f[0]), [int(x) for x in f[1].split('/')], f[2], int(f[3]), f[4]
+            threw = f[1].startswith('!')
+            fired, (ks, tr), fetched, delta, cons = int(f[0]), [int(x) for x in f[1].lstrip('!').split('/')], f[2], int(f[3]), f[4]
         except (ValueError, IndexError):
             return ('bad-output', 'malformed token ' + a[:100])
         where = 'allocation %d of the store fails in `%s`: answered %s' % (k, case, a)
+        if threw and (burst < 2 or limit == 0):
+            return ('exception-escapes-store', 'std::bad_alloc came out of store() although only one allocation failed: ' + where)
+        if threw and (cons != 'ok' or (ks, tr) != (0, 0)):
+            return ('stale-indexes-after-failed-clear', 'the allocation of the bucket vector inside the bad_alloc handler failed too; nl_clear() must have '
+                    'emptied all four containers and zeroed the counters before (regression of /repo a6386b3), but stats are %d/%d, flags %s: %s'
+                    % (ks, tr, cons[:100], where))
         if cons != 'ok':
             return ('index-inconsistent', 'the four indexes / counters of the real cache object disagree after a failed store (%s): %s' % (cons[:100], where))
         if delta != 0:
@@ -884,14 +914,14 @@ def oracle_injf(case, out):
         where = 'allocation %d of fetch fails in `%s`: answered %s' % (k, case, a)
         if cons != 'ok':
             if fired and threw and 'lru-length' in cons and order == 'CB':
-                return ('fetch-recency-update-loses-entry-on-bad-alloc',
-                        'fetch does lru.erase(it); lru.push_front(p); when the push_front allocation throws, std::bad_alloc leaves fetch() with the entry '
-                        'gone from the recency list and its stored iterator dangling (recency list %s, flags %s): the entry can never be the LRU victim and '
-                        'the next delete_node() of it erases through the dangling iterator (%s)' % (order, cons, where))
+                return ('fetch-loses-entry-from-recency-list',
+                        'an allocation failed during fetch() and the entry is gone from the recency list, its stored iterator dangling (recency list %s, flags %s): '
+                        'the recency update must not allocate (regression of /repo 117bb4c: lru.splice instead of erase + push_front) - %s' % (order, cons, where))
             return ('index-inconsistent', 'the indexes of the real cache object disagree after a failed fetch (%s): %s' % (cons[:100], where))
         if fetched == 'h0':
             return ('readback-wrong-value', where)
-        if order not in (('ACB', 'CBA') if threw else ('ACB',)):
+        # the recency update (one splice) comes before anything fetch allocates: A is in front whether or not copying out threw
+        if order != 'ACB':
             return ('recency-order-wrong', 'recency list %s after fetch(A) on entries stored A, B, C: %s' % (order, where))
         if not fired and fetched != 'h1':
             return ('miss-of-held-entry', where)
@@ -911,7 +941,7 @@ def oracle(case, out):
         return oracle_bud(case, out)
     if case.startswith('exh '):
         return oracle_exh(case, out)
-    if case.startswith('inj '):
+    if case.startswith('inj ') or case.startswith('inj2 '):
         return oracle_inj(case, out)
     if case.startswith('injf '):
         return oracle_injf(case, out)
@@ -1102,7 +1132,8 @@ def exh_cases(rng, thorough):
     tspecs = ['16-16', '17-40', '16-200', '100-100', '24-24', '16-31', '33-300']
     for kib in (512, 1024, 2048):
         for tspec in (tspecs if thorough else rng.sample(tspecs, 4)):
-            cases.append(exh_natural(rng, kib, rng.choice([0, 0, 0, 3, 8]), tspec, 24 if thorough else 10))
+            # limits 16..400 were the input class of the repaired finding 1 (a6386b3): the oracle now demands a healthy cache there
+            cases.append(exh_natural(rng, kib, rng.choice([0, 0, 0, 3, 8, 16, 64, 400]), tspec, 24 if thorough else 10))
     sweeps = [(48, 1), (48, 2), (100, 1), (100, 2), (100, 3), (230, 1), (230, 2), (500, 2), (16, 1), (48, 3)]
     for unit, stride in sweeps:
         for kib in ((512, 1024, 2048) if thorough else (512, rng.choice([1024, 2048]))):
@@ -1110,9 +1141,9 @@ def exh_cases(rng, thorough):
             klen = rng.choice([16, 20, 40, 100])
             nt = rng.choice([1, 2, 3])
             tspec = rng.choice(['16-16', '20-20', '18-60', '100-100', '40-40'])
-            # limit 0: with a limit nl_clear() itself allocates (rehash(limit)) and, with a second tenant holding the segment, throws out of the
-            # bad_alloc handler of store() - see docs/C08.md "Observations"; a single cache can not get there
-            cases.append(exh_hog(rng, kib, 0, unit, stride, 0, top, klen, rng.choice([0, 15, 16, 40]), nt, tspec))
+            # with a limit nl_clear() allocates (rehash(limit)); with a second tenant holding the segment std::bad_alloc may then leave store() /
+            # clear() - legitimately since a6386b3, provided the cache is empty and consistent afterwards (oracle: s!0/0, c!0/0)
+            cases.append(exh_hog(rng, kib, rng.choice([0, 0, 4, 16]), unit, stride, 0, top, klen, rng.choice([0, 15, 16, 40]), nt, tspec))
     return cases
 
 
@@ -1136,7 +1167,8 @@ def exhm_cases(rng, thorough):
                 steps = ['M']
                 for n, keep in enumerate(range(0, top)):
                     steps += ['H%d:%d:%d' % (unit, keep, stride), 'S:%d:%d:%d:%s:%d' % (klen, vlen, nt, tspec, keep), 'M']
-                    steps += [['U', 'M', 'C', 'M'], ['C', 'M', 'U', 'M'], ['D:%d:%d' % (klen, keep), 'M', 'U', 'C', 'M'],
+                    steps += [['F:%d:%d:%d' % (klen, vlen, keep), 'M', 'U', 'M', 'C', 'M'], ['C', 'M', 'U', 'M'],
+                              ['F:%d:%d:%d' % (klen, vlen, keep), 'D:%d:%d' % (klen, keep), 'M', 'U', 'C', 'M'],
                               ['U', 'C', 'S:%d:%d:%d:%s:%d' % (klen, vlen, nt, tspec, keep), 'M', 'C', 'M']][n % 4]
                 cases.append('exh %d 0 %d 40 %s' % (kib, T0, ' '.join(steps)))
     # oversized trigger sets on small segments (no second tenant), a few ordinary entries around them
@@ -1163,6 +1195,12 @@ def inj_cases(rng, thorough):
         with_model.append('inj 0 %d %d %d %d %s %d %d' % (T0, klen, vlen, nt, tspec, kmax, npre))
         lim = rng.choice([1, 2, 5, 8])
         alone.append('inj %d %d %d %d %d %s %d %d' % (lim, T0, klen, vlen, nt, tspec, kmax, min(npre, lim - 1)))
+        # two consecutive failures: the second one is the bucket vector nl_clear() re-creates inside the bad_alloc handler of store
+        lim = rng.choice([1, 3, 8, 16])
+        alone.append('inj2 %d %d %d %d %d %s %d %d' % (lim, T0, klen, vlen, nt, tspec, kmax, min(npre, lim - 1)))
+    # fetch under failure injection (oracle only): the recency update must not allocate
+    for klen, vlen in ((20, 30), (3, 3), (16, 16), (rng.choice([1, 15, 40]), rng.choice([0, 15, 100]))):
+        alone.append('injf %d %d %d %d 6' % (rng.choice([0, 4, 8]), T0, klen, vlen))   # three entries: limit 0 or > 3
     return with_model, alone
 
 
@@ -1172,7 +1210,7 @@ def exhl_cases(rng, thorough):
     (not modelled), so only the order-insensitive part of every answer is compared: stats and the bytes in in-use pages."""
     cases = []
     for kib in ((8, 16, 32, 64, 128) if thorough else (8, 32, 64)):
-        for lim in ((1, 2, 3, 4, 5, 6, 7, 8) if thorough else rng.sample([1, 2, 3, 4, 5, 6, 7, 8], 3)):
+        for lim in ((1, 2, 3, 4, 5, 6, 7, 8, 16, 64) if thorough else rng.sample([1, 2, 3, 4, 5, 6, 7, 8], 3) + [rng.choice([16, 64])]):
             tspec = rng.choice(['16-16', '17-40', '3-30', '100-100'])
             steps = ['M']
             for cy in range(10 if thorough else 5):
@@ -1181,6 +1219,9 @@ def exhl_cases(rng, thorough):
                     steps += ['D:%d:%d' % (rng.choice([8, 20, 40]), 1000 * cy + 500), 'M']
                 steps += ['S:%d:%d:%d:%s:%d' % (rng.choice([3, 16, 24, 60]), rng.choice([0, 16, 100]), kib * 1024 // rng.choice([150, 100, 60]), tspec, cy), 'M', 'C', 'M']
             cases.append('exh %d %d %d 40 %s' % (kib, lim, T0, ' '.join(steps)))
+    # the witness of the repaired finding 1 (16 KiB, limit 64, 80 trigger names of 20 bytes) and its 512 KiB relatives
+    cases.append('exh 16 64 %d 40 M S:16:0:80:20-20:1 M C M S:16:0:1:17-17:2 M F:16:0:2 C M' % T0)
+    cases.append('exh 64 16 %d 40 M S:20:10:900:20-20:1 M C M S:20:10:2:20-20:2 M F:20:10:2 C M' % T0)
     # entries that SHARE trigger names (same id, different key length): removing one must keep the trigger nodes, removing the last one of a
     # trigger releases its node; rise of a shared trigger removes both
     for kib in (16, 64):
@@ -1326,7 +1367,7 @@ def nontrivial(case, out):
         return True
     if c[0] == 'injf':
         return out.startswith('1:')
-    if c[0] == 'inj':
+    if c[0] in ('inj', 'inj2'):
         return out.startswith('1:') and ' 0:' in out
     if c[0] == 'exh':
         # at least one store that the allocator refused part-way (dropped or cleared) and one accounting read-out
@@ -1349,8 +1390,8 @@ def classify(case, out):
         return 'cyc:%s:%s' % ('thread' if c[1] == 't' else 'process', c[-1].split()[-1])
     if case == 'exh consts':
         return 'exh:consts'
-    if c[0] == 'inj':
-        return 'inj:thread:limit%s' % ('0' if c[1] == '0' else '>0')
+    if c[0] in ('inj', 'inj2'):
+        return '%s:thread:limit%s' % (c[0], '0' if c[1] == '0' else '>0')
     if c[0] == 'injf':
         return 'inj:thread:fetch'
     if c[0] == 'exh':
@@ -1388,7 +1429,8 @@ def run(ctx):
         'proved equal to the model leafs (coq/C08/LinkGuards.v); the allocator constants (`bud consts`) and the object / node sizes (`exh consts`) are '
         'compared with the real ones at run time',
         'checks/C08.py gen_shape: lexical extraction (comments stripped, white space removed, fixed table of statement texts) of basic_map::allocate(v), '
-        'allocate(), destroy, the destroy calls of erase / clear, the two catch blocks of mem_cache::store and the statement set of nl_clear into '
+        'allocate(), destroy, the destroy calls of erase / clear, the two catch blocks of mem_cache::store, the statement list of nl_clear (rehash '
+        'calls last, a6386b3) and the recency update of fetch (one splice, 117bb4c) into '
         'coq/gen/Gen_C08_hashmap.v; coq/C08/Link.v proves they are the shapes the resource model assumes',
         'extraction: ExtrOcamlBasic only, OCaml 4.13.1',
         'harness/C08_cache.cpp (includes src/cache_storage.cpp of the tree under test, -fno-access-control, interposed time() and operator new with '
@@ -1399,11 +1441,12 @@ def run(ctx):
                        'for cache correspondence: no allocation failure and not_enough_memory() false (values <= 100 bytes); sequences with memory '
                        'pressure are judged by the property oracle only',
                        'resource-model theorems: ms - sizeof(buddy_allocator) < 2^63; RI r0 (the initial in-use pages are the recorded blocks plus the other '
-                       'tenants; RI_init: true for the fresh segment); limit 0 for the two restore-after-clear theorems (for limits >= 16 clear() can throw: '
-                       'limited_cache_clear_throws_refuted, finding 1); the catch block of basic_map::allocate is present (Link.link_allocate_protected, '
+                       'tenants; RI_init: true for the fresh segment); limit 0 for the two restore-after-clear theorems (with a limit the two bucket vectors '
+                       'stay allocated, possibly in other pages than at construction); the catch block of basic_map::allocate is present (Link.link_allocate_protected, '
                        're-derived from the source on every run)',
                        'exh budget sweeps hold the segment with blocks of a second tenant (process_settings::process_memory is shared by every cache of the '
-                       'process); sweeps use limit 0 because of finding 1 (docs/C08.md)',
+                       'process); with a limit and a second tenant std::bad_alloc may leave store()/clear() (the bucket vector can not be re-created): the '
+                       'oracle then demands an empty, consistent cache; sweeps compared with the model use limit 0',
                        'counters do not wrap (uint64 generation, size_t size); buddy requests are >= 1 byte and < 2^63 '
                        '(malloc(0) corrupts the allocator but no container of the cache ever asks for 0 bytes, see docs/C08.md)',
                        'time() is the only clock the cache reads (checked by the harness self-test on every run)',
@@ -1429,7 +1472,7 @@ def run(ctx):
         exhs = [c for c in cases if c.startswith('exh ')]
         exhm = []
         exhl = []
-        injm, inja = [], [c for c in cases if c.startswith('inj ') or c.startswith('injf ')]
+        injm, inja = [], [c for c in cases if c.split(' ', 1)[0] in ('inj', 'inj2', 'injf')]
     else:
         corpus = vlib.corpus_cases('C08')
         seqs, press = gen_cases(ctx)
@@ -1441,7 +1484,7 @@ def run(ctx):
         exhm = exhm_cases(ctx.rng, not ctx.quick())
         exhl = exhl_cases(ctx.rng, not ctx.quick())
         injm, inja = inj_cases(ctx.rng, not ctx.quick())
-        inja = [c for c in corpus if c.startswith('inj ') or c.startswith('injf ')] + inja
+        inja = [c for c in corpus if c.split(' ', 1)[0] in ('inj', 'inj2', 'injf')] + inja
     ctx.coverage['rule'] = (
         'seq: back end (thread_shared / process_shared 512 KiB-4 MiB), limit 1..8 (plus 0/large for contrast), a sequence of store/fetch/rise/'
         'remove/clear/clock-set over a key alphabet of limit+1..limit+10 keys; the answer lists every fetch result, stats() and the private recency '
@@ -1457,7 +1500,8 @@ def run(ctx):
         '40 % of the segment; budget sweeps: a second tenant holds the segment except 0..N blocks of 32..512 bytes (contiguous or every 2nd/3rd/5th), one '
         'store with long key and trigger names, so that every allocation of store is the failing one for some budget; the same on 8..512 KiB segments '
         'compared step by step with the extracted resource model. inj (thread_shared): the k-th operator new of one store throws, k = 1..beyond the '
-        'last allocation, with 0..4 earlier entries, limit 0 compared with the model, limits 1..8 oracle only. Non-trivial = seq with an eviction-capable store and a hit / '
+        'last allocation, with 0..4 earlier entries, limit 0 compared with the model, limits 1..8 oracle only; inj2: two consecutive failures (the second is '
+        'the bucket vector of the nl_clear() inside the handler, limits 1..16); injf: the k-th allocation of fetch. Non-trivial = seq with an eviction-capable store and a hit / '
         'bud with a successful malloc; distinct = distinct case lines.')
     ctx.coverage['exhaustive'] = False
     ctx.coverage['exhaustive_parts'] = ['cache: all op sequences of length 4 (quick) / 5 (thorough) over the 13-op alphabet starting with a store x limits {1,2}(,3)',
@@ -1475,7 +1519,7 @@ def run(ctx):
                           what='correspondence resource model (cache over buddy allocator) vs process_shared mem_cache: failure points and page structure')
     if exhl and mexe:
         vlib.differential(ctx, exhl, exe, mexe, oracle, nontrivial, classify, canon_case=lambda c, a: coarse(a), canon_model=coarse,
-                          what='correspondence resource model vs process_shared mem_cache, limits 1..8 (stats and bytes in in-use pages)')
+                          what='correspondence resource model vs process_shared mem_cache, limits 1..8, 16, 64 (stats and bytes in in-use pages)')
     if injm and mexe:
         vlib.differential(ctx, injm, exe, mexe, oracle, nontrivial, classify,
                           what='correspondence resource model vs thread_shared mem_cache under failure injection: which allocation of a store is the k-th')
